@@ -1,5 +1,101 @@
-import CoapVerif.Spec.Oscore
-import CoapVerif.Model.Oscore
+import CoapVerif.Lemmas.Oscore
+/-
+C14 — OSCORE protection round-trips, matches RFC 8613, and tampering is detected by the tag.
+
+  S = Coap.Spec.Oscore (RFC 8613 written from the RFCs) over Coap.Spec.Crypto (CCM, AES, HKDF, SHA-256)
+  M = Coap.M.Oscore    (transcription of src/oscore/*.c helpers and of the option split / merge)
+
+NOT a theorem: "every modification is rejected" — that is unforgeability of the MAC, a cryptographic
+assumption.  What is proved: the AEAD round-trips for every block function, decryption rejects
+exactly when the recomputed tag differs (or the input is shorter than a tag), and the inputs of the
+tag (AAD, nonce) determine kid / Partial IV / algorithm injectively.
+-/
 namespace Coap.C14
-theorem placeholder : True := trivial
+open Coap.Spec.Crypto Coap.Spec.Oscore
+
+/-- CCM decryption undoes CCM encryption, for every block function `E` (AES-128 is one), every tag
+length, nonce, associated data and message. -/
+theorem ccm_roundtrip (E : Bytes → Bytes) (M : Nat) (n a p : Bytes) :
+    ccmDecrypt E M n a (ccmEncrypt E M n a p) = some p := by
+  have hl : (ccmEncrypt E M n a p).length = p.length + M := by
+    simp [ccmEncrypt, ccmCtr_length, xorKs_length, ccmTag_length]
+  have ht : (ccmEncrypt E M n a p).take p.length = ccmCtr E n p := by
+    simp [ccmEncrypt, ← ccmCtr_length E n p]
+  have hd : (ccmEncrypt E M n a p).drop p.length = xorKs (ccmTag E M n a p) (fit M (E (ccmCtrBlock n 0))) := by
+    simp [ccmEncrypt, ← ccmCtr_length E n p]
+  unfold ccmDecrypt
+  have hlt : ¬ (ccmEncrypt E M n a p).length < M := by omega
+  simp only [hlt, if_false]
+  have hsub : (ccmEncrypt E M n a p).length - M = p.length := by omega
+  rw [hsub, ht, hd, ccmCtr_ccmCtr, xorKs_xorKs]
+  simp
+
+/-- Rejection happens iff the datagram is shorter than a tag or the tag recomputed over the
+recovered message differs from the transmitted one. -/
+theorem tamper_detected_iff_tag_mismatch (E : Bytes → Bytes) (M : Nat) (n a c : Bytes) :
+    ccmDecrypt E M n a c = none ↔
+      (c.length < M ∨
+       xorKs (c.drop (c.length - M)) (fit M (E (ccmCtrBlock n 0))) ≠
+         ccmTag E M n a (ccmCtr E n (c.take (c.length - M)))) := by
+  unfold ccmDecrypt
+  by_cases h : c.length < M
+  · simp [h]
+  · by_cases h2 : xorKs (c.drop (c.length - M)) (fit M (E (ccmCtrBlock n 0))) =
+        ccmTag E M n a (ccmCtr E n (c.take (c.length - M)))
+    · simp [h, h2]
+    · simp [h, h2]
+
+/-- §6.1: decompressing a compressed COSE object gives it back, for every Partial IV of up to 5 bytes,
+every kid and kid context (present or absent) whose encoding fits the option (255 bytes). -/
+theorem option_value_roundtrip (v : OptVal) (hp : v.piv.length ≤ 5) (hl : (optEncode v).length ≤ 255) :
+    optDecode (optEncode v) = some v := by
+  obtain ⟨piv, kc, kid⟩ := v
+  simp only at hp
+  cases kc with
+  | none =>
+    cases kid with
+    | none =>
+      by_cases he : piv = []
+      · subst he; simp [optEncode, optDecode]
+      · have := decode_flags piv [] 0 0 hp (by omega) (by omega) (by simp [optEncode, he] at hl; simp; omega)
+        simp [optEncode, he] at this ⊢
+        exact this
+    | some k =>
+      have := decode_flags piv k 0 1 hp (by omega) (by omega) (by simp [optEncode] at hl; simp; omega)
+      simp [optEncode] at this ⊢
+      exact this
+  | some c =>
+    have hc : c.length < 256 := by
+      simp [optEncode] at hl; omega
+    have hcn : (UInt8.ofNat c.length).toNat = c.length := by
+      rw [UInt8.toNat_ofNat']; omega
+    cases kid with
+    | none =>
+      have := decode_flags piv (UInt8.ofNat c.length :: c) 1 0 hp (by omega) (by omega) (by simp [optEncode] at hl; simp; omega)
+      simp [optEncode, hcn] at this ⊢
+      exact this
+    | some k =>
+      have := decode_flags piv (UInt8.ofNat c.length :: (c ++ k)) 1 1 hp (by omega) (by omega) (by simp [optEncode] at hl; simp; omega)
+      simp [optEncode, hcn] at this ⊢
+      rw [this]; simp
+
+/-- Inner and outer options recombine to the original list (requests; for responses see
+`unprotect_protect`): the options that survive §8.2 step 1 of the outer message produced by
+`protectRequest`, merged with the inner options, are the original options, for every list sorted
+by option number that carries no OSCORE option, and every OSCORE option value. -/
+theorem split_merge_inverse (os : List Opt) (ov : Bytes) (hs : os.Pairwise (fun a b => a.1 ≤ b.1))
+    (hno : ∀ o ∈ os, o.1 ≠ optOscore) :
+    mergeOpts (withOscore (outerOpts os) ov) (innerOpts true os) = os := by
+  unfold mergeOpts
+  rw [kept_outer_eq os ov hs]
+  have hin : innerOpts true os = os.filter (fun o => !(classUOnly o.1 && decide (o.1 ≠ 9))) := by
+    unfold innerOpts
+    simp only [not_true_eq_false, and_false, if_false, List.map_id']
+    apply List.filter_congr
+    intro o ho
+    have := hno o ho
+    simp [this]
+  rw [hin]
+  exact merge_filter_sorted (fun n => classUOnly n && decide (n ≠ 9)) os hs
+
 end Coap.C14
